@@ -235,6 +235,17 @@ def F27():
     assert cs.t(raw).dumps() == raw, cs.t(raw).dumps()  # a pad byte was written in front of the pending unit
 
 
+def F28():
+    cs = cstruct()
+    cs.load("struct t { uint16 a:4; uint16 b:12; }; struct u { int8 a:4; int8 b:4; };")
+    for make in (lambda: cs.t(a=0x13, b=0), lambda: cs.u(a=1, b=-2)):
+        try:
+            out = make().dumps()
+        except Exception:  # noqa: BLE001
+            continue
+        raise AssertionError(f"a bit-field value that does not fit was silently dumped as {out!r}")
+
+
 ALL = {k: v for k, v in globals().items() if k.startswith("F") and callable(v)}
 
 if __name__ == "__main__":
